@@ -107,6 +107,10 @@ def memcpy (mem : Nat → BitVec 8) (dst src n : Nat) : Nat → BitVec 8 :=
 def memFill (mem : Nat → BitVec 8) (dst n : Nat) (bytes : List (BitVec 8)) : Nat → BitVec 8 :=
   fun a => if dst ≤ a ∧ a < dst + n then bytes.getD (a - dst) 0#8 else mem a
 
+/-- the `n` bytes at `a`, as recorded arguments of an external call -/
+def bytesAt (mem : Nat → BitVec 8) (a n : Nat) : List (BitVec 64) :=
+  (List.range n).map fun i => BitVec.setWidth 64 (mem (a + i))
+
 /-- fuel of translated loops: more iterations than any counter of the translated code can count -/
 def FUEL : Nat := 2 ^ 64 + 1
 
